@@ -418,7 +418,59 @@ def build_invariant_states(p):
     return {"contracts": [t, c], "test": isig, "truth": "invariant", "K": K, "target_sig": "setN(uint256)", "concrete_loop": False}
 
 
-BUILDERS = {"invariant_states": build_invariant_states, "stuck_setup": build_stuck_setup, "regular": build_regular, "depth": build_depth, "width": build_width, "setup": build_setup, "invariant": build_invariant,
+def build_inv_stuck(p):
+    """C: poke(uint256 x) { if (x == 77) { n++ } else { <unsupported feature>; flag = 1 } },  flag() view.
+    T.setUp() creates C;  invariant_flag(): if (C.flag() == 1) Panic(1).
+    where: "top" -- the feature is hit in the frame of the target function ITSELF (the call ends with a HalmosException
+    of its own: output.error is set and there is no output); "call" -- in a helper that poke() creates and calls (the
+    target call has no error of its own and no output).  The x == 77 path changes the state, so every depth has a new
+    frontier state from which poke() is explored again.  On the other path halmos cannot continue: every concrete
+    poke(x), x != 77 (small), sets the flag and breaks the invariant, so an invariant PASS must come with a report about
+    the target transaction.  kind "revert_sym" = revert(0, x): a REVERT whose size is symbolic (the path reverts whatever
+    x is, nothing is hidden; halmos still names it)."""
+    where, kind = p["where"], p["kind"]
+    arg = [("push", 4), "CALLDATALOAD"]
+    feature = arg + ["PUSH0", "REVERT"] if kind == "revert_sym" else unsupported_items(kind, arg)
+    blob = creation_code(assemble(feature + ["STOP"]))
+
+    def c_items(off):
+        it = l3.dispatcher([("poke(uint256)", "P"), ("flag()", "G")])
+        it += [("label", "P"), "POP", ("push", 4), "CALLDATALOAD", ("push", 77), "EQ", ("ref", "OUT"), "JUMPI"]
+        if where == "top":
+            it += feature
+        else:
+            it += [("pushn", 2, len(blob)), ("pushn", 2, off), "PUSH0", "CODECOPY", ("pushn", 2, len(blob)), "PUSH0", "PUSH0", "CREATE"]   # helper address
+            it += ["CALLDATASIZE", "PUSH0", "PUSH0", "CALLDATACOPY"]
+            it += ["PUSH0", "PUSH0", "CALLDATASIZE", "PUSH0", "PUSH0", "DUP6", ("pushn", 3, 0xFFFFFF), "CALL", "POP", "POP"]
+        it += [("push", 1), ("push", 1), "SSTORE", "STOP"]
+        it += [("label", "OUT"), "PUSH0", "SLOAD", ("push", 1), "ADD", "PUSH0", "SSTORE", "STOP"]
+        it += [("label", "G"), "POP", ("push", 1), "SLOAD", "PUSH0", "MSTORE", ("push", 32), "PUSH0", "RETURN"]
+        return it + [("raw", blob)]
+
+    off = len(assemble(c_items(0))) - len(blob)
+    c_rt = assemble(c_items(off))
+    assert c_rt[off:] == blob
+    c = l3.Contract("C", [("poke", ["uint256"]), ("flag", [])], c_rt, path="src/C.sol")
+    c_cr = creation_code(c_rt)
+    isig = "invariant_flag()"
+
+    def t_items(tail_off):
+        it = l3.dispatcher([("setUp()", "S"), (isig, "I")])
+        it += [("label", "S"), "POP", ("pushn", 2, len(c_cr)), ("pushn", 2, tail_off), "PUSH0", "CODECOPY",
+               ("pushn", 2, len(c_cr)), "PUSH0", "PUSH0", "CREATE", "PUSH0", "SSTORE", "STOP"]
+        it += [("label", "I"), "POP", ("pushn", 32, l3.sel_int("flag()") << 224), "PUSH0", "MSTORE",
+               ("push", 32), ("push", 32), ("push", 4), "PUSH0", "PUSH0", "SLOAD", ("pushn", 3, 0xFFFFFF), "STATICCALL", "POP",
+               ("push", 32), "MLOAD", ("push", 1), "EQ", ("ref", "PANIC"), "JUMPI", "STOP", ("label", "PANIC")] + l3.panic_items(1)
+        return it + [("raw", c_cr)]
+
+    toff = len(assemble(t_items(0))) - len(c_cr)
+    t_rt = assemble(t_items(toff))
+    assert t_rt[toff:] == c_cr
+    t = l3.Contract("T", [("setUp", []), ("invariant_flag", [])], t_rt)
+    return {"contracts": [t, c], "test": isig, "truth": "invariant", "K": 77, "target_sig": "poke(uint256)", "concrete_loop": False}
+
+
+BUILDERS = {"inv_stuck": build_inv_stuck, "invariant_states": build_invariant_states, "stuck_setup": build_stuck_setup, "regular": build_regular, "depth": build_depth, "width": build_width, "setup": build_setup, "invariant": build_invariant,
             "depth_multi": build_depth_multi, "stuck": build_stuck}
 
 
@@ -493,4 +545,11 @@ def gen_cases(r, tier):
     # ... and in setUp
     for w, k in ([("call", "mstore_sym"), ("top", "mstore_sym")] if tier == "quick" else [(w, k) for w in ("call", "top") for k in ("mstore_sym", "mload_sym", "sha3_sym")]):
         cases.append({"family": "stuck_setup", "params": {"where": w, "kind": k}, "options": []})
+    # invariant testing: a target transaction stopped by an unsupported feature in the target's OWN frame / in a nested call,
+    # at depth 1 and 2
+    inv_stuck = [("top", "op_selfdestruct", 1), ("top", "mstore_sym", 2), ("top", "revert_sym", 1), ("call", "mstore_sym", 2)]
+    if tier != "quick":
+        inv_stuck = [(w, k, d) for w in ("top", "call") for k in ("op_selfdestruct", "op_blobhash", "mstore_sym", "mload_sym", "sha3_sym", "revert_sym") for d in (1, 2)]
+    for w, k, d in inv_stuck:
+        cases.append({"family": "inv_stuck", "params": {"where": w, "kind": k}, "options": ["--invariant-depth", str(d)]})
     return cases
